@@ -152,6 +152,51 @@ def validate_traces(ctx, recs, max_div=5):
     return diverging
 
 
+def _accepts(ctx, events, tag):
+    path = os.path.join(ctx.scratch, "selftest-%s.ndjson" % tag)
+    with open(path, "w") as f:
+        for e in events:
+            f.write(json.dumps(e, separators=(",", ":")) + "\n")
+    r = vlib.tlc("PbfTrace", "PbfTrace.cfg", ctx.scratch, env={"TRACE": path}, workers=1, timeout=600)
+    m = re.search(r'<<"HIGHWATER", (\d+), (\d+)>>', r.out)
+    return r.rc == 0 and bool(m) and int(m.group(1)) == len(events) + 1
+
+
+def binding_selftest(ctx, recs, diverging=()):
+    """The binding is demonstrated on every run, not assumed: one accepted recorded trace of the real code is damaged in four
+    ways -- the decoder index of one serializer receive changed (a corrupted field), one decoder send removed (a removed hook),
+    two consecutive receives of the serializer swapped (an order slip), the block of one returned object changed (a corrupted
+    API observation) -- and PbfTrace must reject every damaged copy while accepting the original.  A damaged copy that is
+    accepted means the trace spec constrains nothing there: an infrastructure failure (exit 2), never a verdict."""
+    import copy
+    cand = [i for i, r in enumerate(recs) if i not in set(diverging) and r["trace"] and r["run"]["outcome"] == "ok"
+            and r["trace"][0].get("n", 0) >= 2
+            and sum(1 for e in r["trace"] if e["e"] == "s.got" and e.get("nobj", 0) > 0) >= 2
+            and any(e["e"] == "c.ret" and e.get("ok") for e in r["trace"])]
+    if not cand:
+        raise vlib.Infra("binding self-test: no recorded run with two decoders and two non-empty blocks")
+    tr = recs[cand[0]]["trace"]
+    n = tr[0]["n"]
+    gots = [k for k, e in enumerate(tr) if e["e"] == "s.got" and e.get("nobj", 0) > 0]
+    sents = [k for k, e in enumerate(tr) if e["e"] == "w.sent"]
+    rets = [k for k, e in enumerate(tr) if e["e"] == "c.ret" and e.get("ok")]
+    damaged = {}
+    d = copy.deepcopy(tr); d[gots[0]]["who"] = (d[gots[0]]["who"] + 1) % n; damaged["field-s.got.who"] = d
+    d = copy.deepcopy(tr); del d[sents[0]]; damaged["hook-w.sent-removed"] = d
+    d = copy.deepcopy(tr); d[gots[0]], d[gots[1]] = d[gots[1]], d[gots[0]]; damaged["order-s.got-swapped"] = d
+    d = copy.deepcopy(tr); d[rets[-1]]["blk"] = d[rets[-1]]["blk"] + 1; damaged["field-c.ret.blk"] = d
+    import concurrent.futures as cf
+    with cf.ThreadPoolExecutor(max_workers=5) as ex:
+        fo = ex.submit(_accepts, ctx, tr, "orig")
+        fs = {k: ex.submit(_accepts, ctx, v, k) for k, v in damaged.items()}
+        if not fo.result():
+            raise vlib.Infra("binding self-test: the undamaged trace is not accepted on its own")
+        acc = [k for k, f in fs.items() if f.result()]
+    if acc:
+        raise vlib.Infra("binding self-test: damaged trace(s) accepted by PbfTrace: %s" % acc)
+    ctx.extra["binding_selftest"] = {"damaged_traces_rejected": sorted(damaged), "events": len(tr)}
+
+
 def judge_runs(ctx, recs, prefixes):
     """PbfRunJudge on the API-level histories; keep only the clauses (reason prefixes) of this property."""
     slim = [{"case": {"kind": r["case"].get("kind", ""), "expect": r["case"].get("expect", {"delivered": [], "err": ""})}, "run": r["run"]} for r in recs]
